@@ -158,7 +158,7 @@ func (d *revDecompressor) Reset(r io.Reader) error {
 func newGzipD() connect.Decompressor { return &gzip.Reader{} }
 func newGzipC() connect.Compressor   { return gzip.NewWriter(io.Discard) }
 func newRevD() connect.Decompressor  { return &revDecompressor{} }
-func newRevC() connect.Compressor   { return &revCompressor{} }
+func newRevC() connect.Compressor    { return &revCompressor{} }
 
 // ---- shared handlers, per-scenario state found through a request header -------------------------
 
